@@ -69,8 +69,9 @@ Definition range_oracle_bad (c : range_case) : bool :=
 Record play_case := {
   pc_keep : bool; pc_clear : bool; pc_noplot : bool; pc_quiet : bool; pc_upload : bool;
   pc_fouled : bool;            (* the configuration is built to foul / not to foul *)
-  pc_repeat : bool;
+  pc_repeat : bool;            (* the script has a repeat section and the play gets that far *)
   pc_cwd : bytes; pc_datadir : bytes; pc_runid : bytes;
+  pc_alias_before : option bytes;   (* text of <output-dir>/latest when the run started (an earlier run's), if any *)
   (* observed after the process has exited *)
   pc_exit_nonzero : bool;
   pc_stray : bool;             (* something appeared outside <output-dir>/<run id> and <output-dir>/latest *)
@@ -84,7 +85,8 @@ Record play_case := {
   pc_times : list Z;           (* every time of every row of csv/*.csv, nanoseconds *)
   pc_repeat_section : bool;    (* result.js has a Repeat section *)
   pc_artifacts_named_exist : bool;  (* every path of the artifact tree exists *)
-  pc_plot_files_exist : bool;       (* every data file / loaded script named in plots/*.gp exists *)
+  pc_plot_files_exist : bool;       (* every data file / loaded script named in plots/*.gp exists; a Repeat
+                                       section comes with a lastplot.gp that runme.gp loads *)
   pc_plots_dir : bool;
 }.
 
@@ -104,7 +106,13 @@ Definition play_model_bad (c : play_case) : bool :=
              && Bool.eqb (path_eqb (latest_resolves_to w d) (abs_path w (d_run d))) (pc_latest_resolves c)
              && Bool.eqb (negb (pc_noplot c)) (pc_plots_dir c)
              && Bool.eqb (pc_repeat c) (pc_repeat_section c)))
-        && bytes_eqb (link_text (pc_datadir c) (pc_runid c)) (pc_latest_text c)).
+        && match refresh_alias (match pc_alias_before c with
+                                 | Some t => ALink (path_of_bytes t)
+                                 | None => ANone
+                                 end) d with
+           | Some (ALink _) => bytes_eqb (link_text (pc_datadir c) (pc_runid c)) (pc_latest_text c)
+           | _ => false
+           end).
 
 (** Which part of the plain meaning fails first (0: none). *)
 Definition time_tolerance : Z := 50001.   (* csv prints times with 4 decimals *)
